@@ -231,9 +231,130 @@ Fixpoint ev_run (max : N) (s : state) (reused dropped : N) (evs : list val) : tr
               end
   end.
 
+(* ---------- the order of effects inside Put ----------
+   The theorems rest on Put being "x.Reset(); then b.pool.Put(x)": the buffer is emptied while its
+   holder still owns it, and nothing touches it once sync.Pool has it.  The harness reads the body
+   of the Put methods from the source the binary was built from (go/ast) and reports it as a list
+   of abstract statements in execution order (deferred calls last, in reverse order):
+     1 = x.Reset()            2 = <recv>.pool.Put(x)       3 = if x.Cap() > max { return }
+     4 = delegation to another Put(x)   5 = any other use of x   9 = something the reader cannot place
+   [put_shape_ok]: some Reset precedes the release, nothing but Resets / capacity guards lies
+   between that Reset and the release, exactly one release, and nothing follows it. *)
+Fixpoint only (allowed : list N) (l : list N) : bool :=
+  match l with [] => true | x :: r => existsb (N.eqb x) allowed && only allowed r end.
+
+Definition is_nil_N (l : list N) : bool := match l with [] => true | _ => false end.
+
+(* after a Reset has been seen: only 1 / 3 until the release, which must be last *)
+Fixpoint after_reset (l : list N) : bool :=
+  match l with
+  | [] => false
+  | x :: r => if x =? 2 then is_nil_N r
+              else if (x =? 1) || (x =? 3) then after_reset r else false
+  end.
+
+Fixpoint put_shape_ok (l : list N) : bool :=
+  match l with
+  | [] => false
+  | x :: r => if x =? 1 then after_reset r || put_shape_ok r
+              else if (x =? 3) || (x =? 5) then put_shape_ok r
+              else false
+  end.
+
+(* the capped wrapper: the capacity guard, then the delegation to the pool's Put *)
+Definition capped_put_shape_ok (l : list N) : bool :=
+  match l with [3; 4] => true | _ => false end.
+
+(* a use of x (Reset or anything else) after the release, or a release that no Reset precedes *)
+Fixpoint touches_after_release (l : list N) : bool :=
+  match l with
+  | [] => false
+  | x :: r => if x =? 2 then negb (only [3] r) else touches_after_release r
+  end.
+Fixpoint release_without_reset (l : list N) : bool :=
+  match l with
+  | [] => false
+  | x :: r => if x =? 1 then false else if x =? 2 then true else release_without_reset r
+  end.
+
+(* The swapped order, "b.pool.Put(x); then x.Reset()" (e.g. defer x.Reset()), as two more atomic
+   actions on the same states: the release makes the buffer available while its holder is still
+   inside Put and has not emptied it; the late Reset then empties whatever is there. *)
+Inductive action2 : Type :=
+| Act (a : action)
+| BRelease (t b : N)         (* sync.Pool.Put(x) first *)
+| BLateReset (t b : N).      (* x.Reset() afterwards *)
+
+Definition step2 (max : N) (s : state) (a : action2) : option (state * obs) :=
+  match a with
+  | Act a => step max s a
+  | BRelease t b =>
+      if holds t b Using (held s)
+      then Some (mkState (heap s) (b :: pool s) (set_phase b InPut (held s)), ONone)
+      else None
+  | BLateReset t b =>
+      if holds t b InPut (held s) then
+        match lookup (heap s) b with
+        | Some v => Some (mkState (upd (heap s) b (mkBuf (bcap v) 0)) (pool s)
+                                  (filter (fun h => negb ((h_tid h =? t) && (h_bid h =? b))) (held s)), ONone)
+        | None => None
+        end
+      else None
+  end.
+
+(* run a schedule of the swapped pool, collecting what each Get handed out *)
+Fixpoint run2 (max : N) (s : state) (acts : list action2) : option (state * list obs) :=
+  match acts with
+  | [] => Some (s, [])
+  | a :: r => match step2 max s a with
+              | Some (s', o) => match run2 max s' r with
+                                | Some (sf, os) => Some (sf, o :: os)
+                                | None => None
+                                end
+              | None => None
+              end
+  end.
+
+(* thread 1 obtains buffer 7, writes 5 bytes and starts Put: release first.  Thread 2 obtains 7
+   from the pool — 5 bytes in it — and writes 3 more; thread 1's late Reset wipes them. *)
+Definition swapped_sched : list action2 :=
+  [Act (AGet 1 (CNew 7)); Act (AWrite 1 7 5 64); BRelease 1 7;
+   Act (AGet 2 (CPool 0)); Act (AWrite 2 7 3 64); BLateReset 1 7].
+
+(* structural case = (8 kind stmts): kind 0 = Buffer.Put, 1 = BufferWithCap.Put
+   stress case     = (7 max gets viols): parallel canary run; viol = (kind tid id want seen)
+                     kind 0: Get returned a buffer of length [seen]; 1: the buffer a goroutine
+                     owns changed length (want/seen); 2: it contains a byte of goroutine [seen] *)
+Definition check_put_body (kind : N) (l : list N) : val :=
+  match kind with
+  | 0 =>
+      if put_shape_ok l then verdict 0 (tag "put-body") true []
+      else if touches_after_release l then
+        verdict 1 (tag "put-touches-buffer-after-release") true [VL (map VN l)]
+      else if release_without_reset l then verdict 1 (tag "put-releases-without-reset") true [VL (map VN l)]
+      else verdict 2 (tag "put-body") true [VL (map VN l)]
+  | 1 =>
+      if capped_put_shape_ok l then verdict 0 (tag "capped-put-body") true []
+      else if only [1; 2; 4; 5] l then verdict 1 (tag "capped-put-without-guard") true [VL (map VN l)]
+      else verdict 2 (tag "capped-put-body") true [VL (map VN l)]
+  | _ => bad_case
+  end.
+
+Definition check_stress (max gets : N) (viols : list val) : val :=
+  match viols with
+  | [] => verdict 0 (tag "stress") (0 <? gets) [VN gets]
+  | VL (VN 0 :: _) as v :: _ => verdict 1 (tag "stress-get-not-empty") true [v]
+  | VL (VN 1 :: _) as v :: _ => verdict 1 (tag "stress-owned-buffer-changed") true [v]
+  | VL (VN 2 :: _) as v :: _ => verdict 1 (tag "stress-foreign-bytes") true [v]
+  | _ => bad_case
+  end.
+
 (* ENGINE pool Conc.Pool.pool_engine *)
 Definition pool_engine (c : val) : val :=
   match c with
+  | VL [VN 8; VN kind; VL stmts] =>
+      match map_opt as_N stmts with Some l => check_put_body kind l | None => bad_case end
+  | VL [VN 7; VN max; VN gets; VL viols] => check_stress max gets viols
   | VL [VN max; VL evs] =>
       let tg := if capped max then tag "capped" else tag "uncapped" in
       match ev_run max init 0 0 evs with
